@@ -15,10 +15,12 @@ R6 = ('C01-5 C02-6 C03-6 C04-5 C05-6 C06-5 C07-6 C08-6 C09-6 C10-5 C11-6 C12-6 '
       'C13-6 C14-5 C15-6 C16-5 C17-5 C18-5 C19-5 C20-6').split()
 R7 = ('C01-6 C02-7 C03-7 C04-6 C05-7 C06-6 C07-7 C08-7 C09-7 C10-6 C11-7 C12-7 '
       'C13-7 C14-6 C15-7 C16-6 C17-6 C18-6 C19-6 C20-7').split()
+R9 = ('C01-8 C02-9 C03-9 C04-8 C05-9 C06-8 C07-9 C08-9 C09-8 C10-8 C11-9 C12-9 '
+      'C13-9 C14-8 C15-9 C16-8 C17-8 C18-8 C19-8 C20-9').split()
 R8 = ('C01-7 C02-8 C03-8 C04-7 C05-8 C06-7 C07-8 C08-8 C10-7 C11-8 C12-8 C13-8 '
       'C14-7 C15-8 C16-7 C17-7 C18-7 C19-7 C20-8').split()
 ROUNDS = dict([(x, 6) for x in R6] + [(x, 7) for x in R7] +
-              [(x, 8) for x in R8])
+              [(x, 8) for x in R8] + [(x, 9) for x in R9])
 for d in sorted(os.listdir(os.path.join(V, 'seeded'))):
     p = os.path.join(V, 'seeded', d)
     mp = os.path.join(p, 'meta.json')
